@@ -18,7 +18,7 @@ THEOREMS = ["sign_ok", "sign_idempotent", "sign_commute", "own_entry_counts", "t
 
 def run(ck: Check) -> None:
     rng = ck.rng
-    n = 400 if ck.thorough else 90
+    n = ck.n(400, 90)
     from .. import impl
 
     for i in range(n):
